@@ -67,7 +67,7 @@ TModel ==
   /\ FitKind /\ HasEv("model") /\ e = 3
   /\ LET shape == IF IsSvdVariant THEN SvdShapeWhy(dat, K, Ev) ELSE ShapeWhy(dat, K, Ev)
          why == IF shape # "ok" THEN shape
-                ELSE IF ~Ev.fin THEN (IF Must THEN "non-finite-model" ELSE "ok")
+                ELSE IF ~Ev.fin THEN "non-finite-model"
                 ELSE IF IsSvdVariant THEN "ok"
                 ELSE CentreWhy(dat, Ev)
      IN Judge1(why, /\ num' = Ev.fin
@@ -94,9 +94,7 @@ TTransform ==
   /\ FitKind /\ HasEv("transform") /\ e = 4
   /\ IF Ev.st # <<dat.n, K>> \/ Ev.su # <<dat.n, K>> \/ ~IsMat(Ev.t, dat.n, K) \/ ~IsMat(Ev.u, dat.n, K)
        THEN Reject("shape-scores")
-     ELSE IF ~num \/ ~Ev.fin
-       THEN (IF Must THEN Reject("non-finite-scores")
-             ELSE num' = FALSE /\ Adv /\ UNCHANGED <<obs, regular, used>>)
+     ELSE IF ~num \/ ~Ev.fin THEN Reject("non-finite-scores")
      ELSE IF IsSvdVariant
        THEN LET strict == SvdTransformWhy(Ev, {})
                 final  == IF strict = "ok" \/ Devs = {} THEN strict ELSE SvdTransformWhy(Ev, Devs)
@@ -116,9 +114,10 @@ TTransform ==
 TInverse ==
   /\ FitKind /\ HasEv("inverse") /\ e = 5 /\ ~IsSvdVariant
   /\ IF Ev.sx # <<dat.n, dat.p>> \/ Ev.sy # <<dat.n, dat.q>> THEN Reject("shape-inverse")
-     ELSE IF ~num \/ ~Ev.fin \/ obs = <<>> THEN num' = num /\ Adv /\ UNCHANGED <<obs, regular, used>>
+     ELSE IF ~Ev.fin THEN Reject("non-finite-inverse")
+     ELSE IF ~num \/ obs = <<>> THEN num' = num /\ Adv /\ UNCHANGED <<obs, regular, used>>
      ELSE Judge1(IF ~InverseOk(obs.t, obs.xl, dat.bx.mean, dat.bx.std, Ev.x) THEN "inverse-x"
-                 ELSE IF In.variant # "reg" /\ ~InverseOk(obs.u, obs.yl, dat.by.mean, dat.by.std, Ev.y) THEN "inverse-y"
+                 ELSE IF ~InverseOk(obs.u, obs.yl, dat.by.mean, dat.by.std, Ev.y) THEN "inverse-y"
                  ELSE "ok",
                  Adv /\ UNCHANGED <<num, obs, regular, used>>)
 
@@ -126,7 +125,8 @@ TInverse ==
 TPredict ==
   /\ FitKind /\ HasEv("predict") /\ e = 6 /\ ~IsSvdVariant
   /\ IF Ev.sy # <<dat.n, dat.q>> THEN Reject("shape-predict")
-     ELSE IF ~num \/ ~Ev.fin \/ obs = <<>> THEN Adv /\ UNCHANGED <<num, obs, regular, used>>
+     ELSE IF ~Ev.fin THEN Reject("non-finite-predict")
+     ELSE IF ~num \/ obs = <<>> THEN Adv /\ UNCHANGED <<num, obs, regular, used>>
      ELSE Judge1(IF PredictOk(dat.Xc, dat.bx.ex, obs.co, dat.by.mean, Ev.y) THEN "ok" ELSE "predict",
                  Adv /\ UNCHANGED <<num, obs, regular, used>>)
 
@@ -136,15 +136,18 @@ TUnseen ==
   /\ LET m  == Len(In.Z)
          Zc == CenMat(dat.bx, dat.scale, In.Z)
          Yz == CenMat(dat.by, dat.scale, In.ZY)
-     IN IF Ev.st # <<m, K>> \/ Ev.su # <<m, K>> \/ (~IsSvdVariant /\ Ev.sy # <<m, dat.q>>) THEN Reject("shape-unseen")
-        ELSE IF ~num \/ ~Ev.fin \/ (~IsSvdVariant /\ obs = <<>>) THEN Adv /\ UNCHANGED <<num, obs, regular, used>>
+         ezx == CenErr(dat.bx, dat.scale, In.Z)
+         ezy == CenErr(dat.by, dat.scale, In.ZY)
+     IN IF Ev.st # <<m, K>> \/ Ev.su # <<m, K>> \/ Ev.sy # (IF IsSvdVariant THEN <<0, 0>> ELSE <<m, dat.q>>) THEN Reject("shape-unseen")
+        ELSE IF ~Ev.fin THEN Reject("non-finite-unseen")
+        ELSE IF ~num \/ (~IsSvdVariant /\ obs = <<>>) THEN Adv /\ UNCHANGED <<num, obs, regular, used>>
         ELSE IF MaxAbsM(Zc) > Lim \/ MaxAbsM(Yz) > Lim THEN Adv /\ UNCHANGED <<num, obs, regular, used>>
         ELSE Judge1(IF IsSvdVariant
-                      THEN (IF ~ProjOk(Zc, dat.bx.ex, Mdl.xw, Ev.t) THEN "unseen-transform-x"
-                            ELSE IF ~ProjOk(Yz, dat.by.ex, Mdl.yw, Ev.u) THEN "unseen-transform-y" ELSE "ok")
-                      ELSE (IF ~ProjOk(Zc, dat.bx.ex, obs.xr, Ev.t) THEN "unseen-transform-x"
-                            ELSE IF ~ProjOk(Yz, dat.by.ex, obs.yr, Ev.u) THEN "unseen-transform-y"
-                            ELSE IF ~PredictOk(Zc, dat.bx.ex, obs.co, dat.by.mean, Ev.y) THEN "unseen-predict"
+                      THEN (IF ~ProjOk(Zc, ezx, Mdl.xw, Ev.t) THEN "unseen-transform-x"
+                            ELSE IF ~ProjOk(Yz, ezy, Mdl.yw, Ev.u) THEN "unseen-transform-y" ELSE "ok")
+                      ELSE (IF ~ProjOk(Zc, ezx, obs.xr, Ev.t) THEN "unseen-transform-x"
+                            ELSE IF ~ProjOk(Yz, ezy, obs.yr, Ev.u) THEN "unseen-transform-y"
+                            ELSE IF ~PredictOk(Zc, ezx, obs.co, dat.by.mean, Ev.y) THEN "unseen-predict"
                             ELSE "ok"),
                     Adv /\ UNCHANGED <<num, obs, regular, used>>)
 
@@ -158,11 +161,14 @@ EquivWhy ==
       \* regression and canonical run the same power iteration; PlsSvd takes the complete SVD, which agrees with the power
       \* method when that has found the isolated dominant pair (it cannot when its start vector is orthogonal to it)
       same(i, j) == (i = 1 /\ j = 2) \/ (iso(i) /\ iso(j))
-  IN IF \E i \in 1..3 : evs[i].ev # "eq" THEN "protocol"
+  IN IF \E i \in 1..3 : evs[i].ev # "eq" \/ evs[i].variant # <<"reg", "can", "svd">>[i] \/ (evs[i].ok /\ evs[i].err # "none") THEN "protocol"
      ELSE IF \E i \in 1..3 : ~evs[i].ok /\ evs[i].err \notin RuntimeErrs THEN "fit-rejects-valid-request"
      ELSE IF ~evs[3].ok THEN "plssvd-fails"
-     ELSE IF \E i \in oks : ~evs[i].fin THEN (IF dat.c1zero \/ dat.bx.rank = 0 THEN "ok" ELSE "non-finite-scores")
+     ELSE IF \E i \in oks : ~evs[i].fin THEN "non-finite-scores"
      ELSE IF \E i \in oks : ~IsMat(evs[i].t, dat.n, 1) \/ ~IsMat(evs[i].w, dat.p, 1) THEN "shape-scores"
+     \* one component: the rotation is the weight vector (p_1 . w_1 = 1), so the scores are Xc w_1 for all three estimators
+     ELSE IF \E i \in oks : MaxAbsM(evs[i].w) <= Lim /\ MaxAbsM(evs[i].t) <= Lim /\ ~dat.c1zero /\ dat.bx.rank >= 1
+                              /\ ~(UnitOk(Col(evs[i].w, 1)) /\ ProjOk(dat.Xc, dat.bx.ex, evs[i].w, evs[i].t)) THEN "scores-are-xc-w"
      ELSE IF \E i \in oks : \E j \in oks : i < j /\ same(i, j) /\ ~SameUpToSign(evs[i].t, evs[j].t) THEN "one-component-equivalence"
      ELSE "ok"
 
